@@ -2,6 +2,7 @@ SPECIFICATION SpecExplain
 CONSTANTS
   Files = {"r", "a", "b"}
   Root = "r"
+  SubFiles = {"b"}
   MaxDepth = 8
   FileSeq <- Seq3
   MaxStmts = 0
